@@ -99,6 +99,7 @@ func init() {
 				{Harness: "zzverif/zzh.ZZC15bAttachment", Desc: "attachment sites: a comment (6 annotation keywords, plain, 5 near-misses) at any two of 12 sites of a file (doc of type spec / type group / func / method / named field of an @immutable struct / field of another struct / embedded field / var / const, trailing comment, comment in a body, doc of a local type; plus a block-comment doc; a two-line doc whose lines are arbitrary independently; a member of a type(...) group with its OWN doc next to the group's doc — its own doc must take effect, the group doc's reach to it is a don't-care): annotations are produced exactly at the effective sites", Bounds: map[string]interface{}{"sites": 17, "non_plain_comments": "<= 2", "alternatives": 17}},
 				{Harness: "zzverif/zzh.ZZC15bAttachment3", Tier: "thorough", Desc: "attachment sites with any three non-plain comments at a time", Bounds: map[string]interface{}{"non_plain_comments": "<= 3"}},
 				{Harness: "zzverif/zzh.ZZC15bIgnoreLines", Desc: "every line of a comment group is recognised on its own: six comment lines in three groups (before a declaration, inside a function, trailing a statement), any three non-plain at a time over 5 spellings; the number of @ignore markers equals the number of well-formed @ignore lines", Bounds: map[string]interface{}{"lines": 6, "non_plain_at_a_time": 3, "spellings": 5}},
+				{Harness: "zzverif/zzh.ZZC15bParenStruct", Desc: "a type whose struct type is written in parentheses (type P (struct{...})): docs of the type and of its named field arbitrary over 17 spellings each: @immutable / @mutable take effect as for a bare struct type", Bounds: map[string]interface{}{"holes": 2, "alternatives": 17}},
 				{Harness: "zzverif/zzh.ZZC15bIgnoreLines6", Tier: "thorough", Desc: "the same with all six lines arbitrary at once (15625 combinations)", Bounds: map[string]interface{}{"lines": 6, "non_plain_at_a_time": 6}},
 				{Harness: "annotations.ZZC15Simple28", Tier: "thorough", Desc: "@immutable/@testonly/@mutable on 28-byte comments", Bounds: map[string]interface{}{"text_bytes": 28}, Setup: func(ex *eng.Explorer, tier string) { ex.TimeoutMS = 300000 }},
 				{Harness: "annotations.ZZC15Constructor30", Tier: "thorough", Desc: "@constructor on 30-byte comments", Bounds: map[string]interface{}{"text_bytes": 30, "list_items": "<= 7"}, Setup: func(ex *eng.Explorer, tier string) { ex.TimeoutMS = 300000; ex.MaxSplit = 7 }},
